@@ -109,11 +109,17 @@ class BitEval(object):
             # arithmetic shift of a possibly negative value: the low (bits - c) result bits are the operand's, the rest is sign fill
             bits = a[3]
             x = self.lin_bits_signed(a[1], bits)
-            v = [x[i + a[2]] if i + a[2] < bits else T for i in range(bits)]
-            return (v + [T] * w)[:w]
+            v = [x[i + a[2]] if i + a[2] < bits else x[bits - 1] for i in range(bits)]
+            return (v + [x[bits - 1]] * w)[:w]
         if op == 'mod':
             x = self.lin_bits(a[1], w)
             return [x[i] if i < a[2] else 0 for i in range(w)]
+        if op == 'smod':
+            # the value re-read as a signed quantity of a[2] bits, in two's complement: the low bits are the operand's, the bits
+            # above repeat the sign bit
+            n = a[2]
+            x = self.lin_bits(a[1], max(w, n))
+            return [x[i] if i < n else x[n - 1] for i in range(w)]
         return [T] * w
 
     def lin_bits_signed(self, l, w):
@@ -123,6 +129,9 @@ class BitEval(object):
         lo, hi = self.st.range(l) if isinstance(l, Lin) else (l, l)
         if lo >= 0:
             return self.lin_bits(l, w)
+        if isinstance(l, Lin) and l.c < 0:
+            # two's complement modulo 2^w: the constant reduced, the atoms added where no carry can arise (else unknown)
+            return self.lin_bits(Lin(l.c % (1 << w), l.t), w)
         return [T] * w
 
     def lin_bits(self, l, w):
